@@ -21,6 +21,17 @@ pub struct VerifKadDump {
     pub executor_len: usize,
     /// Live queries.
     pub queries: Vec<query::VerifQueryState>,
+    /// Non-empty buckets of the routing table: `(bucket index, nodes in bucket order)`.
+    pub routing_table: Vec<(usize, Vec<VerifTableNode>)>,
+}
+
+/// One node of a k-bucket as the routing table stores it.
+#[derive(Debug, Clone, PartialEq, Eq)]
+pub struct VerifTableNode {
+    pub peer: PeerId,
+    pub key: [u8; 32],
+    pub has_addresses: bool,
+    pub connection: ConnectionType,
 }
 
 /// One report of the loop.
@@ -110,6 +121,25 @@ impl Kademlia {
                 .collect(),
             executor_len: self.executor.verif_len(),
             queries: self.engine.verif_queries(),
+            routing_table: (0..self.routing_table.verif_num_buckets())
+                .filter_map(|index| {
+                    let nodes = self.routing_table.verif_bucket(index);
+                    (!nodes.is_empty()).then(|| {
+                        (
+                            index,
+                            nodes
+                                .iter()
+                                .map(|node| VerifTableNode {
+                                    peer: node.verif_peer(),
+                                    key: node.verif_key().verif_raw(),
+                                    has_addresses: node.verif_has_addresses(),
+                                    connection: node.verif_connection(),
+                                })
+                                .collect(),
+                        )
+                    })
+                })
+                .collect(),
         };
         probe.inner.lock().push(VerifProbeEntry::AtSelect(dump));
     }
